@@ -1,9 +1,9 @@
-(** C05, second part: IntN (two's complement ordered) keys, when the encoder
-    succeeds, the end-to-end statement from a sequence of Puts, the label form
-    boundary, and the two refutation witnesses (findings). *)
+(** C05, second part: the label form boundary, when the encoder succeeds, the
+    end-to-end statements from a sequence of Puts (every key type), Get / Put on
+    a decoded dictionary followed by Marshal / Unmarshal (every key type). *)
 From Coq Require Import List NArith Arith Lia Bool Sorted Permutation.
 From Tongo Require Import Lib.Bits Lib.Res Spec.Dict Model.Hashmap
-  Proofs.DictP Proofs.HashmapP Proofs.HashmapPut.
+  Proofs.DictP Proofs.HashmapPut Proofs.HashmapSort Proofs.HashmapP.
 Import ListNotations.
 
 (** ** the label form boundary *)
@@ -80,7 +80,7 @@ Qed.
 Theorem encode_ok n vmax (kvs : list (bits * V)) :
   (forall v, length (fst (venc v)) <= vmax /\ length (snd (venc v)) <= 4)%nat ->
   (Nat.max 16 (2 + lim_width n + n) + vmax <= 1023)%nat ->
-  sorted kvs -> keys_len n kvs ->
+  NoDup (map fst kvs) -> keys_len n kvs ->
   exists c, encode_e venc n kvs = Ok c.
 Proof.
   intros Hv Hfit Hs Hl. unfold encode_e. destruct kvs as [|kv0 kvs'] eqn:E.
@@ -93,9 +93,8 @@ Proof.
     cbn. eauto.
 Qed.
 
-(** ** IntN keys: the slice is ordered numerically (negative keys first), the
-    encoder still produces the canonical tree, decoding lists the non-negative
-    keys first *)
+(** ** IntN keys: the slice Put maintains is ordered numerically, negative keys
+    (first bit 1) first — it is NOT in bit order, which is why MarshalTLB sorts *)
 Lemma signed_split n (m : list (bits * V)) :
   ksorted bits V signed_ltb m -> keys_len (S n) m ->
   exists L R, m = addp [true] R ++ addp [false] L /\
@@ -134,188 +133,78 @@ Proof.
         unfold pair_lt, signed_ltb, bits_ltb in Hall. cbn in Hall. discriminate.
 Qed.
 
-Lemma lcp_go_diff x y a b : x <> y -> lcp_go (x :: a) (y :: b) = Ok [].
+(** ** from a sequence of Puts to the decoded dictionary, for every key type
+    (klt = Compare of the key type, any strict total order) *)
+Section AnyOrder.
+Variable klt : bits -> bits -> bool.
+Hypothesis KO : key_order bits_eqb klt.
+
+Lemma bsort_puts_nil (l : list (bits * V)) :
+  NoDup (map fst l) -> bsort (puts bits_eqb klt l []) = bsort l.
 Proof.
-  intros H. destruct a; [reflexivity|]. rewrite lcp_go_cons.
-  destruct x, y; cbn; congruence.
+  intros Hnd. apply bsort_ext; [apply (puts_nodup V klt KO); constructor|exact Hnd|].
+  intros k. rewrite (proj2 (put_sorted bits V bits_eqb klt KO l)).
+  symmetry. apply (get_perm bits V bits_eqb klt KO); [exact Hnd|apply Permutation_rev].
 Qed.
 
-Lemma split_keys_app sk (A B : list (bits * V)) la ra lb rb :
-  split_keys sk A = Ok (la, ra) -> split_keys sk B = Ok (lb, rb) ->
-  split_keys sk (A ++ B) = Ok (la ++ lb, ra ++ rb).
-Proof.
-  revert la ra; induction A as [|[k v] A IH]; intros la ra HA HB.
-  - cbn in HA. inversion HA; subst. exact HB.
-  - cbn [app split_keys] in *. destruct (short sk k); [discriminate|].
-    destruct (skipn sk k) as [|b k']; [discriminate|].
-    apply bind_ok in HA. destruct HA as ([la' ra'] & HA' & HA).
-    rewrite (IH la' ra' HA' HB). cbn [bind fst snd] in *.
-    destruct b; inversion HA; subst; reflexivity.
-Qed.
-
-Theorem encode_decode_signed n (m : list (bits * V)) c :
-  ksorted bits V signed_ltb m -> keys_len (S n) m -> m <> [] ->
-  encode venc (S n) m = Ok c ->
-  exists L R, m = addp [true] R ++ addp [false] L /\
-              decode vdec (S n) c = Ok (addp [false] L ++ addp [true] R).
-Proof.
-  intros Hs Hl Hne Hc.
-  destruct (signed_split n m Hs Hl) as (L & R & Em & HsL & HsR & HlL & HlR).
-  exists L, R. split; [exact Em|].
-  assert (HR : R = [] \/ R <> []) by (destruct R; [left; reflexivity|right; discriminate]).
-  assert (HL : L = [] \/ L <> []) by (destruct L; [left; reflexivity|right; discriminate]).
-  destruct HR as [ER|HneR]; [|destruct HL as [EL|HneL]].
-  - subst R. change (addp [true] (@nil (bits * V))) with (@nil (bits * V)) in *.
-    cbn [app] in Em. rewrite app_nil_r, <- Em.
-    apply (encode_decode_dict V venc vdec vcodec (S n) m c); auto.
-    rewrite Em. apply addp_sorted. exact HsL.
-  - subst L. change (addp [false] (@nil (bits * V))) with (@nil (bits * V)) in *.
-    rewrite app_nil_r in Em. cbn [app]. rewrite <- Em.
-    apply (encode_decode_dict V venc vdec vcodec (S n) m c); auto.
-    rewrite Em. apply addp_sorted. exact HsR.
-  - destruct (sorted_tree_exists V n L HsL HlL HneL) as (tL & HwL & EtL).
-    destruct (sorted_tree_exists V n R HsR HlR HneR) as (tR & HwR & EtR).
-    assert (Henc : encode venc (S n) m = cells_of venc (S n) (annot_go V (Fork [] tL tR))).
-    { clear Hc. unfold encode. rewrite Em.
-      assert (HneAL : addp [false] L <> []).
-      { intros H. apply (f_equal (@length _)) in H. rewrite addp_length in H.
-        destruct L; [congruence|discriminate]. }
-      destruct R as [|[kr vr] R0] eqn:ER; [congruence|].
-      change (addp [true] ((kr, vr) :: R0)) with ((true :: kr, vr) :: addp [true] R0).
-      rewrite <- app_comm_cons. lazy iota beta.
-      rewrite encode_map_multi.
-      2:{ intros H. apply app_eq_nil in H. destruct H as [_ H]. contradiction. }
-      rewrite app_comm_cons, last_app_ne by exact HneAL.
-      rewrite (last_addp_key V [false] L _ (kr, vr)) by exact HneL.
-      cbn [app]. rewrite lcp_go_diff by discriminate. cbn [bind length].
-      change ((true :: kr, vr) :: addp [true] R0 ++ addp [false] L)
-        with (addp [true] ((kr, vr) :: R0) ++ addp [false] L).
-      rewrite <- ER.
-      rewrite (split_keys_app 0 _ _ [] R L []).
-      2:{ apply (split_keys_right V [] R). }
-      2:{ pose proof (split_keys_fork V [] L []) as H.
-          change (addp ([] ++ [true]) (@nil (bits * V))) with (@nil (bits * V)) in H.
-          rewrite app_nil_r in H. exact H. }
-      cbn [app bind fst snd]. rewrite app_nil_r.
-      replace (S n - 0 - 1)%nat with n by lia.
-      match goal with |- context [encode_map venc ?f n L] => set (fu := f) end.
-      assert (Hfu : (length L < fu /\ length R < fu)%nat).
-      { unfold fu. rewrite app_length, !addp_length, ER. cbn [length].
-        assert (0 < length L)%nat by (destruct L; [congruence|cbn; lia]). lia. }
-      destruct Hfu as [HfL HfR]. clearbody fu.
-      rewrite <- ER in EtR.
-      rewrite <- EtL in HfL |- *. rewrite <- EtR in HfR |- *.
-      rewrite !encode_map_tree by assumption.
-      cbn [annot_go cells_of length]. replace (S n - 0 - 1)%nat with n by lia.
-      rewrite enc_label_go_eq. reflexivity. }
-    rewrite Henc in Hc.
-    pose proof (decode_any_label_form V venc vdec vcodec (S n) (annot_go V (Fork [] tL tR)) c) as D.
-    rewrite erase_annot_go in D.
-    rewrite D; auto.
-    + cbn [tree_to_list app]. rewrite (ttl_prefix V tL), (ttl_prefix V tR), EtL, EtR. reflexivity.
-    + cbn [wf_pt length]. replace (S n - 0 - 1)%nat with n by lia. repeat split; auto; lia.
-    + apply annot_go_valid.
-Qed.
-
-Theorem encode_decode_signed_e n (m : list (bits * V)) c :
-  ksorted bits V signed_ltb m -> keys_len (S n) m ->
-  encode_e venc (S n) m = Ok c ->
-  exists L R, m = addp [true] R ++ addp [false] L /\ sorted L /\ sorted R /\
-              decode_e vdec (S n) c = Ok (addp [false] L ++ addp [true] R).
-Proof.
-  intros Hs Hl Hc. unfold encode_e in Hc. destruct m as [|kv0 m'] eqn:Em.
-  - apply mk_cell_ok in Hc. subst c. exists [], []. repeat split; constructor.
-  - rewrite <- Em in *.
-    apply bind_ok in Hc. destruct Hc as (c' & Hc' & Hc).
-    apply mk_cell_ok in Hc. subst c. cbn [decode_e].
-    destruct (signed_split n m Hs Hl) as (L0 & R0 & Em0 & HsL & HsR & HlL & HlR).
-    destruct (encode_decode_signed n m c' Hs Hl ltac:(subst m; discriminate) Hc')
-      as (L & R & Em' & Hd).
-    (* the split is unique *)
-    assert (E : L = L0 /\ R = R0).
-    { clear - Em0 Em'. rewrite Em0 in Em'. clear Em0. revert R Em'.
-      induction R0 as [|[k v] R0 IH]; intros R Em'.
-      - destruct R as [|[k v] R].
-        + cbn [addp map app] in Em'. split; [|reflexivity].
-          revert L Em'. induction L0 as [|[k v] L0 IHL]; intros [|[k2 v2] L] E;
-            cbn [map] in E; try discriminate; [reflexivity|].
-          inversion E; subst. f_equal. apply IHL. assumption.
-        + exfalso. cbn [addp map app fst snd] in Em'.
-          destruct L0 as [|[k0 v0] L0]; cbn [map] in Em'; discriminate.
-      - destruct R as [|[k2 v2] R].
-        + exfalso. cbn [addp map app fst snd] in Em'.
-          destruct L as [|[k0 v0] L]; cbn [map] in Em'; discriminate.
-        + cbn [addp map app fst snd] in Em'. inversion Em' as [[Ek Ev Et]].
-          destruct (IH R Et) as [-> ->]. auto. }
-    destruct E as [-> ->]. exists L0, R0. auto.
-Qed.
-
-(** ** from a sequence of Puts to the decoded dictionary (bit-ordered key types) *)
 Theorem puts_encode_decode n (l : list (bits * V)) c :
   NoDup (map fst l) -> keys_len n l ->
-  let m := puts bits_eqb bits_ltb l [] in
-  encode_e venc n m = Ok c ->
-  decode_e vdec n c = Ok m /\ sorted m /\ (forall k v, In (k, v) m <-> In (k, v) l).
+  encode_e venc n (puts bits_eqb klt l []) = Ok c ->
+  decode_e vdec n c = Ok (bsort l) /\ sorted (bsort l) /\ Permutation l (bsort l).
 Proof.
-  intros Hnd Hl m Hc.
-  pose proof (put_sorted bits V bits_eqb bits_ltb bits_key_order l) as [Hs _].
-  apply ksorted_bits_sorted in Hs.
-  assert (Hin : forall k v, In (k, v) m <-> In (k, v) l).
-  { intros k v. apply (get_puts_in bits V bits_eqb bits_ltb bits_key_order); exact Hnd. }
-  repeat split; try apply Hin; auto.
-  apply (encode_decode_dict_e V venc vdec vcodec n m c); auto.
-  unfold keys_len in *. rewrite Forall_forall in *. intros [k v] H.
-  apply Hl. apply Hin. exact H.
+  intros Hnd Hl Hc. split; [|split; [apply bsort_sorted; exact Hnd|apply bsort_perm]].
+  rewrite <- (bsort_puts_nil l Hnd).
+  apply (encode_decode_dict_e V venc vdec vcodec n); [| |exact Hc].
+  - apply (puts_nodup V klt KO). constructor.
+  - apply (puts_keys_len V klt n); [exact Hl|constructor].
 Qed.
 
-(** the same for IntN keys: decoding lists the non-negative keys first *)
-Theorem puts_encode_decode_signed n (l : list (bits * V)) c :
-  NoDup (map fst l) -> keys_len (S n) l ->
-  let m := puts bits_eqb signed_ltb l [] in
-  encode_e venc (S n) m = Ok c ->
-  (forall k v, In (k, v) m <-> In (k, v) l) /\
-  exists L R, m = addp [true] R ++ addp [false] L /\ sorted L /\ sorted R /\
-              decode_e vdec (S n) c = Ok (addp [false] L ++ addp [true] R).
+(** ** Get / Put on a dictionary in ascending bit order (what decoding returns),
+    then Marshal / Unmarshal: everything agrees with lookup / update of the
+    abstract map *)
+Theorem ops_agree n (m0 l : list (bits * V)) :
+  sorted m0 -> keys_len n m0 -> keys_len n l ->
+  let mf := puts bits_eqb klt l m0 in
+  (forall k, get bits_eqb k mf = lookup k (updates l m0)) /\
+  sorted (updates l m0) /\ keys_len n (updates l m0) /\
+  (forall c, encode_e venc n mf = Ok c -> decode_e vdec n c = Ok (updates l m0)).
 Proof.
-  intros Hnd Hl m Hc.
-  pose proof (put_sorted bits V bits_eqb signed_ltb signed_key_order l) as [Hs _].
-  assert (Hin : forall k v, In (k, v) m <-> In (k, v) l).
-  { intros k v. apply (get_puts_in bits V bits_eqb signed_ltb signed_key_order); exact Hnd. }
-  split; [exact Hin|].
-  apply encode_decode_signed_e; auto.
-  unfold keys_len in *. rewrite Forall_forall in *. intros [k v] H.
-  apply Hl. apply Hin. exact H.
+  intros Hs Hl0 Hl mf.
+  pose proof (sorted_nodup V m0 Hs) as Hnd.
+  pose proof (bsort_id V m0 Hs) as Hid.
+  split; [|split; [|split]].
+  - intros k. unfold mf. rewrite (get_puts_lookup V klt KO l m0 k Hnd), Hid. reflexivity.
+  - apply updates_sorted. exact Hs.
+  - apply updates_keys_len; assumption.
+  - intros c Hc. rewrite <- Hid at 1. rewrite <- (bsort_puts V klt KO l m0 Hnd).
+    apply (encode_decode_dict_e V venc vdec vcodec n); [| |exact Hc].
+    + apply (puts_nodup V klt KO). exact Hnd.
+    + apply (puts_keys_len V klt n); assumption.
 Qed.
 
+(** the same, starting from the cells of ANY valid dictionary *)
+Theorem decoded_ops_agree n (t : option (apt V)) c0 (l : list (bits * V)) :
+  (forall a, t = Some a -> wf_pt n (erase a) /\ forms_valid a) ->
+  cells_of_e venc n t = Ok c0 -> keys_len n l ->
+  exists m0, decode_e vdec n c0 = Ok m0 /\ sorted m0 /\ keys_len n m0 /\
+    let mf := puts bits_eqb klt l m0 in
+    (forall k, get bits_eqb k mf = lookup k (updates l m0)) /\
+    (forall c, encode_e venc n mf = Ok c -> decode_e vdec n c = Ok (updates l m0)).
+Proof.
+  intros Hw Hc0 Hl.
+  exists (match t with Some a => tree_to_list [] (erase a) | None => [] end).
+  assert (Hsl : sorted (match t with Some a => tree_to_list [] (erase a) | None => [] end) /\
+                keys_len n (match t with Some a => tree_to_list [] (erase a) | None => [] end)).
+  { destruct t as [a|]; [|split; constructor].
+    destruct (Hw a eq_refl) as [Hwf _]. split; [apply ttl_sorted|apply ttl_keys_len; exact Hwf]. }
+  destruct Hsl as [Hs Hl0].
+  split; [apply (decode_e_any_label_form V venc vdec vcodec); assumption|].
+  split; [exact Hs|]. split; [exact Hl0|].
+  destruct (ops_agree n _ l Hs Hl0 Hl) as (Hg & _ & _ & Hd). split; assumption.
+Qed.
+
+End AnyOrder.
 End Codec.
-
-(** ** refutation witnesses (findings; the model is faithful to the defects) *)
-
-(* F19: tlb.AddressWithWorkchain declares FixedSize 288 but its encoding has
-   264 bits.  Workchain -1, address 0, one entry. *)
-Lemma address_key_refuted :
-  let k := repeat true 8 ++ repeat false 256 in
-  exists c, encode_e venc_bit 288 [(k, true)] = Ok c /\
-            decode_e vdec_bit 288 c = Err ENotEnoughRefs.
-Proof. vm_compute. eexists. split; reflexivity. Qed.
-
-(* A decoded IntN-keyed dictionary lists non-negative keys before negative
-   ones, i.e. it is not sorted by Compare.  Put of a new key then inserts at a
-   position that breaks encodeMap's first/last-key assumption.  Int8 keys
-   {1, -3}, Put(-64): the re-encoded dictionary maps -63 instead of 1. *)
-Lemma signed_put_after_decode_refuted :
-  let k1 := bits_of 8 1 in let k3 := bits_of 8 253 in let k64 := bits_of 8 192 in
-  let m := [(k1, false); (k3, true)] in
-  sorted m /\ keys_len 8 m /\
-  exists c c', encode_e venc_bit 8 m = Ok c /\ decode_e vdec_bit 8 c = Ok m /\
-    encode_e venc_bit 8 (put bits_eqb signed_ltb k64 true m) = Ok c' /\
-    decode_e vdec_bit 8 c' = Ok [(k64, true); (bits_of 8 193, false); (k3, true)].
-Proof.
-  cbn zeta. split; [|split].
-  - repeat constructor.
-  - repeat constructor.
-  - vm_compute. eexists. eexists. repeat split; reflexivity.
-Qed.
 
 (** the serialised dictionary does not depend on the insertion order *)
 Theorem encode_order_independent {V} (venc : V -> bits * list cell) keq klt n (l1 l2 : list (bits * V)) :
